@@ -220,7 +220,7 @@ VARIANT_CELLS = 9     # tables up to this many cells are also explored through t
 
 
 def run_shard_generic(shard, tier, prop, check_case, both_labelings=True,
-                      max_violations=5, sample_every=997, variants=()):
+                      max_violations=5, sample_every=997, variants=(), wide_variants=None):
     """Explore every table of a shard with ``check_case(case, ctr)``."""
     ctr = collections.Counter()
     viols = []
@@ -231,6 +231,12 @@ def run_shard_generic(shard, tier, prop, check_case, both_labelings=True,
         runs = [(labeling, 'fresh') for labeling in labelings_for(tag, both_labelings)]
         if variants and n * m <= VARIANT_CELLS:
             runs += [(space.ASC, v) for v in variants]
+        elif variants and tag[0] == 'W':
+            # the whole wide / big tables too: pickling has size-dependent paths (index widths,
+            # far-apart cover links) that no 9-cell table reaches
+            wv = wide_variants if wide_variants is not None else \
+                tuple(v for v in variants if v == 'pickle')
+            runs += [(space.ASC, v) for v in wv]
         for labeling, variant in runs:
             case = Case(rows, tag, labeling, variant)
             if variant != 'fresh':
